@@ -86,6 +86,10 @@ def akai_subject():
     sites.append(("PROG.kg0.next", p + 150 + 1, 2, [0, 150, 300, 1, 65535], "prog"))
     sites.append(("PROG.kg1.next", p + 300 + 1, 2, [0, 150, 300, 450, 65535], "prog"))
     sites.append(("PROG.kg0.num_zones", p + 150 + 31, 1, [0, 1, 5, 255], "prog"))
+    # the next-keygroup field of a block the parser can be SENT to by the faults above (offset L = a damaged first
+    # address, or the byte right behind the header): pointing to itself, to the first keygroup, behind the header
+    for L in (0, 1, 72, 149, 151):
+        sites.append((f"PROG.next@{L}", p + L + 1, 2, [L, 150, 72, 300], "proglink"))
     return img, sites
 
 
@@ -333,7 +337,9 @@ class Check(CheckBase):
             "fill byte; (AKAI single faults) complete site x value menus: every used SAT word (+ header sectors, + 2 beyond) <- "
             "{free, end, 0x4000, 0x8000, every used sector, itself, 1, 2, 11385, 11386, 0xFFFF}, partition size, volume entries "
             "(name byte, type, start), file entries (type, size, start), sample header counts/markers/loop slot, program "
-            "first_keygroup_address / number_of_keygroups / next_keygroup_address / zone count; (Roland single faults) every "
+            "first_keygroup_address / number_of_keygroups / next_keygroup_address / zone count, ALL PAIRS of program faults incl. the link "
+            "field of every block a damaged first address (or a zero count) sends the parser to, and all triples (first address, "
+            "count, such a link); (Roland single faults) every "
             "used FAT word (+2 beyond) <- {free, reserved, error, end marks, every used cluster, itself, 7, 8, 65526, 65527, "
             "65535}, FAT id/version, the five ID-area counts, pointer-list entries of volume/performance/patch/partial, sample "
             "fat_entry/type/loop points/loop mode/cluster_top/options; (cue) every line deleted / duplicated / replaced by 8 "
@@ -367,6 +373,15 @@ class Check(CheckBase):
                 cue.append({"op": "replace", "line": i, "repl": r})
         out += [{"kind": "cue", "cases": cue[i:i + 30]} for i in range(0, len(cue), 30)]
         out.append({"kind": "satfill"})
+        # cooperating faults inside one program file: all pairs of (header / chain-link) faults and all triples
+        # (first address, keygroup count, link of a block the parser can be sent to)
+        pg = all_faults("akai", {"prog", "proglink"})
+        multi = [list(c) for c in itertools.combinations(pg, 2) if c[0][0] != c[1][0]]
+        fa = [f for f in pg if f[0] == "PROG.first_keygroup_address"]
+        nk = [f for f in pg if f[0] == "PROG.number_of_keygroups"]
+        lk = [f for f in pg if f[0].startswith("PROG.next@")]
+        multi += [[a, b, c] for a in fa for b in nk for c in lk]
+        out += [{"kind": "faults", "subject": "akai", "cases": multi[i:i + 60]} for i in range(0, len(multi), 60)]
         for fam in SCALE_FAMILIES:
             for n in ((60,) if self.quick else (60, 150)):
                 out.append({"kind": "scaling", "family": fam, "n": n})
